@@ -8,6 +8,7 @@ from harness.common import (
     AND, MINUS, NOT, OR, PLUS, chunk_parent, layout_blocks, layout_params, layout_pre, sname,
 )
 from vlib.obl import Obl
+from vlib.sym import concretize, untraced
 from vlib.tok import untok
 
 META = dict(
@@ -142,6 +143,32 @@ def bed_minus_chunk_fn(kind, k, strand, coding):
     return fn
 
 
+def flag_truthiness_fn():
+    """the coordinate-mode flag is a truth value: falsy non-bools (0, None) give the chunk-relative record and truthy ones (1) the chromosome record, column for
+    column, on chunks of either strand and on chunks that cut the object. Realised leg."""
+
+    def fn(s0, w, cstrand, coding):
+        s0, w, cstrand, coding = concretize(s0, w, cstrand, coding)
+        with untraced():
+            par = lambda: chunk_parent(w, 12, strand=PLUS if cstrand == 0 else MINUS)  # noqa: E731
+            ex = [(s0, s0 + 4), (s0 + 6, s0 + 11)]
+            if coding:
+                o = TranscriptInterval([e[0] for e in ex], [e[1] for e in ex], PLUS, [ex[0][0] + 1, ex[1][0]], [ex[0][1], ex[1][1] - 1], [CDSFrame.ZERO, CDSFrame.ZERO],
+                                       transcript_symbol="tx1", sequence_name="chr1", guid=5, parent_or_seq_chunk_parent=par())
+            else:
+                o = FeatureInterval([e[0] for e in ex], [e[1] for e in ex], MINUS, feature_name="tx1", sequence_name="chr1", guid=5, parent_or_seq_chunk_parent=par())
+
+            def rec(flag):
+                try:
+                    return str(o.to_bed12(chromosome_relative_coordinates=flag))
+                except Exception as e:  # noqa
+                    return type(e).__name__
+
+            return rec(0) == rec(False) and rec(None) == rec(False) and rec(1) == rec(True) and rec("yes") == rec(True)
+
+    return fn
+
+
 def name_cross_class_fn(order):
     """the name column is looked up on the exported object itself: a name that is an attribute of ANOTHER class only is used literally, whatever objects of
     other classes were exported with that name before"""
@@ -152,13 +179,14 @@ def name_cross_class_fn(order):
         t = TranscriptInterval([ex[0][0]], [ex[0][1]], PLUS, transcript_symbol="ts", transcript_id="tid", sequence_name="chr9", guid=6)
         want = {("f", "transcript_symbol"): "transcript_symbol", ("t", "transcript_symbol"): "ts", ("f", "feature_name"): "fn", ("t", "feature_name"): "feature_name",
                 ("t", None): "ts", ("f", None): "fn", ("f", "transcript_id"): "transcript_id", ("t", "transcript_id"): "tid", ("t", "feature_id"): "feature_id",
-                ("f", "feature_id"): "fid"}
+                ("f", "feature_id"): "fid", ("t", "id"): "tid", ("t", "name"): "ts", ("f", "id"): "fid", ("f", "name"): "fn", ("t", "guid"): None, ("f", "sequence_name"): "chr9"}
         ok = True
         for who, name in order:
             o = f if who == "f" else t
             for mode in (True, False) if False else (True,):
                 b = o.to_bed12(chromosome_relative_coordinates=mode) if name is None else o.to_bed12(name=name, chromosome_relative_coordinates=mode)
-                ok = ok and b.name == want[(who, name)] and str(b).split("\t")[3] == want[(who, name)]
+                w_ = want[(who, name)] if want[(who, name)] is not None else getattr(o, name)
+                ok = ok and b.name == w_ and str(b).split("\t")[3] == str(w_)
         return ok
 
     return fn
@@ -299,7 +327,8 @@ def obligations(tier):
                                    kind, " whose CDS runs from exon 3 to exon 15" if coding else ""),
                                bounds="17 blocks (len>=1, gaps>=1), unbounded ints", examples=[ex]))
     orders = [(("f", "transcript_symbol"), ("t", None), ("t", "transcript_symbol")), (("t", "feature_name"), ("f", None), ("f", "feature_name")),
-              (("t", "transcript_id"), ("f", "transcript_id"), ("t", "transcript_id")), (("f", "feature_id"), ("t", "feature_id"), ("f", "feature_id"), ("t", None))]
+              (("t", "transcript_id"), ("f", "transcript_id"), ("t", "transcript_id")), (("f", "feature_id"), ("t", "feature_id"), ("f", "feature_id"), ("t", None)),
+              (("t", "id"), ("t", "name"), ("f", "id"), ("f", "name"), ("t", "guid"), ("f", "sequence_name"))]  # names that are PROPERTIES / shared accessors
     for n, order in enumerate(orders):
         out.append(Obl("bed12_name_cross_class_%d" % n, name_cross_class_fn(order), {"s0": int, "l0": int}, lambda s0, l0: s0 >= 0 and l0 >= 1,
                        budget=60, cost=2, stubs=dict(tokens=True),
@@ -325,6 +354,12 @@ def obligations(tier):
                            desc="object on a chunk placed on the MINUS strand: the chunk-relative record is the mirrored source (blocks, strand, thick range = mirrored CDS "
                                 "bounds), the chromosome record is the source", bounds="%d blocks inside a minus-strand chunk of length %d at symbolic offset" % (k, L),
                            examples=[ex, dict(ex, s0=101)]))
+    out.append(Obl("bed12_mode_flag_is_a_truth_value", flag_truthiness_fn(), dict(s0=int, w=int, cstrand=int, coding=int),
+                   lambda s0, w, cstrand, coding: 100 <= s0 and s0 <= 112 and 100 <= w and w <= 110 and 0 <= cstrand and cstrand <= 1 and 0 <= coding and coding <= 1,
+                   budget=600, cost=30,
+                   desc="to_bed12 with the coordinate-mode flag given as 0 / None / 1 / a non-empty string writes the same record as with False / True, on plus- and minus-"
+                        "strand chunks that hold, cut or miss the object", bounds="2-block feature / coding transcript at 100..112, chunk of 12 nt at 100..110 x 2 chunk strands (realised)",
+                   examples=[dict(s0=101, w=100, cstrand=1, coding=1), dict(s0=104, w=100, cstrand=0, coding=0)]))
     out.append(Obl("bed12_name_score_rgb", name_fallback_fn(), {"s0": int, "l0": int}, lambda s0, l0: s0 >= 0 and l0 >= 1,
                    budget=60, cost=2, stubs=dict(tokens=True), desc="name attribute lookup / literal fallback, score and rgb columns",
                    bounds="1 block", examples=[dict(s0=3, l0=4)]))
